@@ -127,6 +127,25 @@ func c09Monitor(m *vk.Meta, in mgrIn, out mgrOut) {
 				}
 			}
 		}
+		// the acknowledgement is the LAST step of entering full maintenance: once it is written nothing else is changed, also
+		// within the iteration that writes it
+		{
+			acked := false
+			for _, e := range st.Trans {
+				if e.Kind == "DcsSet" && e.Arg == pathMaintenance && e.Err == "" && !strings.HasPrefix(e.Resp, "(RErr") && strings.Contains(e.Raw, "mt_paused := true") && !strings.Contains(e.Raw, "mt_light := true") {
+					acked = true
+					continue
+				}
+				if acked && (e.Host != "" && e.Mut || e.Host == "" && e.Mut && (e.Arg == pathActiveNodes || e.Arg == pathMasterNode)) {
+					viol("while full maintenance is acknowledged no mysync process changes any MySQL server setting or replication topology nor the recorded master or active list", fmt.Sprintf("after writing the acknowledgement, in the same iteration: %s %s %s", e.Host, e.Kind, e.Arg), nil)
+					break
+				}
+			}
+		}
+		// light maintenance pauses nobody: a process that is not the manager keeps competing for the lock
+		if light && st.State == stateCandidate && st.Next == stateMaintenance && st.Panic == "" {
+			viol("light maintenance only suppresses failover while repairs and planned switchovers continue", "a candidate went to the paused state under light maintenance", nil)
+		}
 		// leaving
 		left := false
 		for _, e := range st.Trans {
@@ -183,9 +202,15 @@ func c09Monitor(m *vk.Meta, in mgrIn, out mgrOut) {
 					nm++
 				}
 			}
+			// evidence of a leave attempt: the paused loop refreshes the registry only to leave; a manager iteration refreshes it
+			// always and gets to the leave attempt only past the master lookup (a recorded master that is not a registered host
+			// ends the iteration before) - there the evidence is the read of the active list that follows that lookup
 			tried := false
 			for _, e := range st.Trans {
-				if e.Kind == "DcsChildren" && e.Arg == pathHANodes {
+				if st.State == stateMaintenance && e.Kind == "DcsChildren" && e.Arg == pathHANodes {
+					tried = true
+				}
+				if st.State == stateManager && e.Kind == "DcsGet" && e.Arg == pathActiveNodes && !strings.HasPrefix(e.Resp, "(RErr") {
 					tried = true
 				}
 			}
